@@ -350,7 +350,7 @@ class BaseNormalizeUnit(Unit):
     bounded = {'sources / outputs / outputs_required entries': '0..3'}
     mutants = (
         ("`or None` dropped from the comma normalisation", f'{FILTER}::Filter.normalize_config', '{n: split_commas_maybe(s) or None}', '{n: split_commas_maybe(s)}', 'C11.'),
-        ('mq_log map made non-idempotent', f'{FILTER}::Filter.normalize_config', 'config.mq_log = new_mq_log', "config.mq_log = 'none' if new_mq_log is False else new_mq_log", 'C11.idempotent'),
+        ('mq_log map made non-idempotent', f'{FILTER}::Filter.normalize_config', 'config.mq_log = new_mq_log', "config.mq_log = {'pretty': 'image', 'image': 'data'}.get(new_mq_log, new_mq_log)", 'C11.idempotent'),
         ('extra_metrics list left as a list', f'{FILTER}::Filter.normalize_config', 'config.extra_metrics = dict(extra_metrics)', 'config.extra_metrics = extra_metrics', 'C11.text_equals_struct'),
     )
 
